@@ -4,7 +4,7 @@ import struct
 from harness import core, connlib, serverlib
 
 PROP = "C11"
-LEAN_MODULES = ["MpgsModel.Props.C11", "MpgsModel.Props.C11Run"]
+LEAN_MODULES = ["MpgsModel.Props.C11", "MpgsModel.Props.C11Run", "MpgsModel.Props.C11Unverified"]
 MODEL_MODULES = ["MpgsModel.Model.Server", "MpgsModel.Model.ToyAead"]
 NS = "Mpgs.Server."
 THEOREMS = [
@@ -19,6 +19,9 @@ THEOREMS = [
     (NS + "C11_hello_keeps_key", "full"),
     (NS + "C11_update_every_iteration", "full"),
     (NS + "C11_loop_never_stalls", "full"),
+    (NS + "C11_unverified_budget", "full"),
+    (NS + "C11_halfopen_sends_only_replies", "full"),
+    (NS + "C11_halfopen_receive", "full"),
 ]
 ASSUMPTIONS = [
     "whole runs (C11_update_every_iteration, C11_loop_never_stalls): every iteration of the loop model reaches handler.update exactly once "
@@ -28,14 +31,15 @@ ASSUMPTIONS = [
     "'cannot stop the server': the loop model is a total function in which every exception path of the code is an explicit branch "
     "(contained); that the model knows every path is what the differential on hostile streams validates; exceptions raised by C "
     "extensions on inputs the model deems fine, OS errors from sendto and CPU exhaustion by floods of valid hellos are outside",
-    "no-amplification is proved structurally (an unpromoted connection is never CONNECTED, so it emits no keep-alives; the hello handler "
-    "queues at most the one SERVER_HELLO per accepted hello; strangers without a hello get nothing) and measured in bytes by the monitor "
-    "(a hello is accepted only at the full padded datagram size - C14_clientHello_fixed_size - and the SERVER_HELLO is ~330 bytes); since "
-    "repair 8599f81 the byte inequality is a theorem at the message level (C11_hello_reply_once: the queued reply is no longer than the hello "
-    "it answers, both carried in the same 26-byte CRC framing; C11_short_hello_not_answered: otherwise nothing is queued and no key or token "
-    "is kept) and since repair 30a6fe7 a connection answers one hello only (C11_one_hello_per_connection, C11_hello_keeps_key: a reply is "
-    "queued only by a connection without a key, which has one afterwards and never loses it to a hello); its sum over a whole run (bytes sent to an unpromoted address <= bytes received from it) is what the monitor measures and is "
-    "not a Lean theorem (partial)",
+    "no amplification, whole runs (C11_unverified_budget): in any run of the loop model from the empty server an address that is not "
+    "promoted in that run is sent at most as many datagrams as it has sent datagrams whose header says CLIENT_HELLO - whatever else "
+    "arrives from it or anybody, whatever the handlers do, for every clock, MTU and configuration; every such datagram consists of queued "
+    "SERVER_HELLO messages that leave the queue - no keep-alive, no resend (C11_halfopen_sends_only_replies, C11_halfopen_receive: a "
+    "half-open connection stays 'quiet' under every datagram that does not promote it); a connection queues one SERVER_HELLO in its life "
+    "(repair 30a6fe7: C11_one_hello_per_connection, C11_hello_keeps_key), no longer than the hello it answers (repair 8599f81: "
+    "C11_hello_reply_once, C11_short_hello_not_answered), both in the same 26 bytes of CRC framing. The sum in BYTES over a run is not a "
+    "Lean theorem (partial): it is what the monitor measures on the real loop (bytes sent to an unpromoted address <= bytes received "
+    "from it, per address, after every iteration)",
 ]
 RULE = ("the REAL server loop (see C10) with honest echo clients running throughout and hostile streams from many addresses: random bytes of "
         "every length 0..2000, valid headers with garbage bodies, truncated and complete hellos from strangers, everything also from "
